@@ -38,6 +38,66 @@ def run_c09(pid, tier):
     v.finish()
 
 
+def run_c10(pid, tier):
+    import concurrent.futures as cf
+    import re
+    t0 = time.time()
+    v = Verdict(pid, tier, t0)
+    quick = tier == 'quick'
+    dmax, cmax, grid, nsamp = (3, 4, '2,4,8,12', 2) if quick else (4, 7, '2,4,6,8,12,18,28', 3)
+    outdir = os.path.join(scratch(), 'occ')
+    os.makedirs(outdir, exist_ok=True)
+    run_impl('drv_occupancy.py', [outdir, dmax, cmax, grid, common.seed(), nsamp], timeout=10000)
+    index = json.load(open(os.path.join(outdir, 'index.json')))
+
+    def one(it):
+        tout = it['path'].replace('.json', '_out.json')
+        r = run_tlc('Occupancy', 'SPECIFICATION Spec\nCONSTANT MaxCfg = 0\n', env={'VERIF_IN': it['path'], 'VERIF_OUT': tout}, workers=1,
+                    name='Occ_' + os.path.basename(it['path'])[:-5], timeout=6000, java_opts=['-Xmx3g'])
+        if not os.path.exists(tout):
+            raise common.MachineryError('Occupancy wrote no verdict for %s\n%s' % (it['name'], common.tail(r.out, 30)))
+        return it, json.load(open(tout)), r
+    states = trans = configs = 0
+    suspects, drift = [], []
+    with cf.ThreadPoolExecutor(max_workers=14) as ex:
+        for it, res, r in ex.map(one, index):
+            states += r.distinct
+            trans += r.generated
+            configs += res['configs']
+            if not res['topo_ok']:
+                raise common.MachineryError('recorded order of %s is not topological' % it['name'])
+            for f in res['sample_fails']:
+                drift.append({'structure': it['name'], 'what': 'specification fold and real code disagree on a time', 'node': f[1]})
+            for f in res['fails']:
+                m = dict(re.findall(r'(RO|MW|FL|RST) \|-> (\d+)', f[3]))
+                suspects.append({'name': it['name'], 'clause': f[0], 'a': f[1], 'b': f[2], 'cfg': {k_: int(x) for k_, x in m.items()}})
+    if drift:
+        # the binding itself failed: the specification's solution of the relation equations is not what the code reports
+        for d_ in drift[:10]:
+            v.fail('C10.times', d_, replay=d_)
+    if suspects:
+        pin, pout = os.path.join(outdir, 'confirm_in.json'), os.path.join(outdir, 'confirm_out.json')
+        json.dump(suspects[:200], open(pin, 'w'))
+        run_impl('drv_occupancy.py', ['confirm', pin, pout, dmax, cmax, common.seed()], timeout=6000)
+        for s_ in json.load(open(pout)):
+            if s_['confirmed']:
+                v.fail(s_['clause'], {'circuit': s_['name'], 'config_quarter_units': s_['cfg'], 'operations': s_.get('real')}, replay=s_)
+            else:
+                v.notes.append('MODEL-DRIFT: overlap predicted by the fold not reproduced on the code: %s' % json.dumps(s_)[:300])
+    v.coverage.update({
+        'states': states, 'transitions': trans, 'traces_validated_against_impl': len(index),
+        'evaluations': configs, 'distinct_nontrivial': len([i for i in index if i['n_ops'] >= 10]),
+        'rule': 'structures: main constructor d=2..%d x 0..%d cycles (fewer cycles for larger distances), simplified constructor (>=1 cycle, d<=3), calibration circuits (qubit/qutrit, 1 and 3 qubits), each as constructed and '
+                'unrolled; for each structure TLC sweeps the whole grid {%s}^4 (quarter units) of READOUT x MICROWAVE x FLUX x RESET durations, solving the relation equations itself; the '
+                'fold is compared with the real code under %d sampled configurations per structure; evaluations = configurations evaluated; non-trivial = structure with >= 10 operations' % (dmax, cmax, grid, nsamp),
+        'samples': [{'structure': index[0]['name'], 'operations': index[0]['n_ops']}, {'structure': index[-1]['name'], 'operations': index[-1]['n_ops']}],
+        'structures': [i['name'] for i in index], 'suspects_from_sweep': len(suspects),
+    })
+    v.assumptions += ['all positive durations are quantified in the property; the sweep is over a finite grid chosen to realise every ordering of the four durations and 2*microwave (a bound, not a proof)',
+                      'durations are multiples of 1/2 time unit so that the decoupling wait (readout - microwave)/2 stays on the integer grid']
+    v.finish()
+
+
 def run(pid, tier):
     if pid == 'C09':
         return run_c09(pid, tier)
